@@ -1,3 +1,159 @@
 import KsiVerif.Util.DriverMain
-open KsiVerif
-def main : IO Unit := runDriver (fun i _ => "skip no-model-yet " ++ i)
+import KsiVerif.Model.Sha
+import KsiVerif.Model.Tree
+import KsiVerif.Spec.HashChain
+import KsiVerif.Gen.HashAlgo
+/-! Model driver for C16 — protocol in harness/exec_c16.c. -/
+open KsiVerif KsiVerif.HashChain KsiVerif.HashChainSpec KsiVerif.Tree
+
+def H : HashFn := fun id msg => (Sha.hashById id).map (· msg)
+
+def showLink (l : Link) : String :=
+  let d := if l.isLeft then "L" else "R"
+  match l.sib with
+  | .imprint a dg => s!"{d}:{l.lc}:i:{toHex (UInt8.ofNat a :: dg)}"
+  | .metaData p => s!"{d}:{l.lc}:m:{toHex p}"
+  | .legacyId r => s!"{d}:{l.lc}:l:{toHex r}"
+
+def showLeaf (x : Nat × Nat × Bytes × List Link) : String :=
+  let (k, lv, b, ch) := x
+  s!"{k}/{lv}/{toHex b}/{if ch.isEmpty then "-" else ";".intercalate (ch.map showLink)}"
+
+def parseLinkTok (s : String) : Option Link :=
+  match s.splitOn ":" with
+  | [d, lc, k, hx] =>
+    match lc.toNat?, ofHex hx with
+    | some n, some b =>
+      if k == "i" then (match b with | a :: dg => some ⟨d == "L", n, .imprint a.toNat dg⟩ | [] => none)
+      else if k == "m" then some ⟨d == "L", n, .metaData b⟩ else none
+    | _, _ => none
+  | _ => none
+
+/-- oracle: every chain the implementation hands out must recompute the implementation's own
+root by the C03 reference formula; ids must be 0,1,2,… -/
+def leafOracle (algo : Nat) (rootLevel : String) (rootImp : String) (toks : List String) : Option String :=
+  let rec go (ts : List String) (expectId : Nat) : Option String :=
+    match ts with
+    | [] => none
+    | t :: rest =>
+      match t.splitOn "/" with
+      | [k, lv, inp, links] =>
+        match k.toNat?, lv.toNat?, ofHex inp,
+              (if links == "-" then some [] else (links.splitOn ";").mapM parseLinkTok) with
+        | some kk, some l, some b, some ch =>
+          if kk != expectId then some "leaf-ids-not-consecutive"
+          else match refChain H algo l b ch with
+            | some (e, c) =>
+              if toString e != rootLevel || toHex c != rootImp then some s!"chain-of-leaf-{kk}-does-not-recompute-the-root"
+              else go rest (expectId + 1)
+            | none => some s!"chain-of-leaf-{kk}-is-not-a-valid-chain"
+        | _, _, _, _ => some "unreadable-leaf-output"
+      | _ => some "unreadable-leaf-output"
+  go toks 0
+
+structure TbState where
+  b : Builder
+  closed : Option Node := none
+
+def verdict (cls model impl : String) (spec : Option String) : String :=
+  match spec with
+  | some why => s!"specfail {cls} {why}"
+  | none => if model == impl then s!"ok {cls}" else s!"diff {cls} model={model}"
+
+def renderEnd (sts : List Nat) (closed : Option Node) (prev : String) : String :=
+  let st := ",".intercalate (sts.map toString)
+  match closed with
+  | some r =>
+    let rb := match r with | .leaf _ (.mdata _) _ => "-" | _ => toHex r.bytes     -- a lone metadata leaf has no root hash
+    s!"{st} {r.level} {rb} {prev}" ++ String.join ((chains r).map fun x => " " ++ showLeaf x)
+  | none => s!"{st} - - {prev}"
+
+def runTb (algo maxL : Nat) (ops : List String) : String :=
+  let step (acc : TbState × List Nat) (op : String) : TbState × List Nat :=
+    let (s, sts) := acc
+    match op.splitOn ":" with
+    | ["c"] =>
+      if s.closed.isSome then (s, sts ++ [St.INVALID_STATE])
+      else match close H algo s.b.stack with
+        | .ok r => ({ s with closed := some r, b := { s.b with stack := [] } }, sts ++ [0])
+        | .error e => (s, sts ++ [e])   -- a failed close leaves the builder as it was
+    | k :: lv :: hx :: _ =>
+      match lv.toNat?, ofHex hx with
+      | some level, some bytes =>
+        let content : Content := if k == "h" then .hash bytes else
+          match op.splitOn ":" with
+          | [_, _, _, pl] => .mdata ((ofHex pl).getD [])
+          | _ => .mdata []
+        if level > 0xff then (s, sts ++ [St.INVALID_ARGUMENT])
+        else match heightCheck s.b level 0 with
+          | .error e => (s, sts ++ [e])
+          | .ok () =>
+            if s.closed.isSome then (s, sts ++ [St.INVALID_STATE])
+            else match s.b.addLeaf H algo content level 0 .ok with
+              | .ok b' => ({ s with b := b' }, sts ++ [0])
+              | .error e => (s, sts ++ [e])
+      | _, _ => (s, sts ++ [99999])
+    | _ => (s, sts ++ [99999])
+  let (s, sts) := ops.foldl step ({ b := { maxLevel := maxL } }, [])
+  renderEnd sts s.closed "-"
+
+structure BsState where
+  s : Signer
+  closed : Option Node := none
+
+def runBs (algo : Nat) (prev iv : Option Bytes) (ops : List String) : String :=
+  let step (acc : BsState × List Nat) (op : String) : BsState × List Nat :=
+    let (st, sts) := acc
+    match op.splitOn ":" with
+    | ["c"] =>
+      if st.closed.isSome then (st, sts ++ [St.INVALID_STATE])
+      else match close H algo st.s.b.stack with
+        | .ok r => ({ st with closed := some r, s := { st.s with b := { st.s.b with stack := [] } } }, sts ++ [0])
+        | .error e => (st, sts ++ [e])
+    | ["r"] => ({ s := st.s.reset, closed := none }, sts ++ [0])
+    | ["x", m] => ({ st with s := { st.s with b := { st.s.b with maxLevel := m.toNat?.getD 0 } } }, sts)
+    | ["a", lv, hx, _cid, pl] =>
+      match lv.toNat?, ofHex hx with
+      | some level, some imp =>
+        let md : Option Bytes := if pl == "-" then none else ofHex pl
+        -- KSI_BlockSigner_addLeaf: the leaf hash algorithm must be trusted (deprecated ones are refused)
+        let algoOk := match imp with | a :: _ => (Gen.hashAlgs.find? (·.id == a.toNat)).map (·.trusted) == some true | [] => false
+        if !algoOk then (st, sts ++ [St.UNTRUSTED_HASH_ALGORITHM])
+        else if level > 0xff then (st, sts ++ [St.INVALID_ARGUMENT])
+        else match heightCheck st.s.b level 2 with
+          | .error e => (st, sts ++ [e])
+          | .ok () =>
+            if st.closed.isSome then (st, sts ++ [St.INVALID_STATE])
+            else
+              let (s', code) := st.s.addLeaf H algo imp level md
+              ({ st with s := s' }, sts ++ [code])
+      | _, _ => (st, sts ++ [99999])
+    | _ => (st, sts ++ [99999])
+  let (st, sts) := ops.foldl step ({ s := Signer.new prev iv }, [])
+  renderEnd sts st.closed (match st.s.prev with | some p => toHex p | none => "-")
+
+def handle (inp out : String) : String :=
+  let ow := words out
+  match words inp with
+  | ["tb", algo, maxL, ops] =>
+    match algo.toNat?, maxL.toNat? with
+    | some a, some m =>
+      let ms := runTb a m (ops.splitOn ";")
+      let spec := match ow with
+        | _ :: rl :: ri :: _ :: leaves => if rl == "-" || ri == "-" then none else leafOracle a rl ri leaves
+        | _ => some "short-impl-output"
+      let nOk := ((ms.splitOn " ").head!.splitOn ",").filter (· == "0") |>.length
+      verdict s!"tb:{if (ms.splitOn " ")[1]! == "-" then "open" else "closed"}:ok{min nOk 9}" ms out spec
+    | _, _ => "skip bad-tb"
+  | ["bs", algo, prev, iv, ops] =>
+    match algo.toNat? with
+    | some a =>
+      let ms := runBs a (if prev == "-" then none else ofHex prev) (if iv == "-" then none else ofHex iv) (ops.splitOn ";")
+      let spec := match ow with
+        | _ :: rl :: ri :: _ :: leaves => if rl == "-" then none else leafOracle a rl ri leaves
+        | _ => some "short-impl-output"
+      verdict s!"bs:{if (ms.splitOn " ")[1]! == "-" then "open" else "closed"}" ms out spec
+    | none => "skip bad-bs"
+  | _ => "skip unknown-op"
+
+def main : IO Unit := runDriver handle
